@@ -23,6 +23,7 @@
 -/
 import LLFreeV.Proofs.TreeStats
 import LLFreeV.Proofs.ClassPartition
+import LLFreeV.Proofs.ConcUpperThreads
 namespace LLFree.C14
 open LLFree Prog
 
@@ -49,6 +50,16 @@ theorem tree_stats_free_sum (c : Cfg) (H : Nat → Nat) (ok : CfgOk c) (m : Mem)
 theorem tree_stats_partition (c : Cfg) (H : Nat → Nat) (ok : CfgOk c) (m : Mem) (inv : UpperInv0 c H m) :
     Runs m (treeStats c) (fun s m' => m = m' ∧ classSum s.classes = c.ntrees * c.tf ∧ classFree s.classes = s.freeFrames) :=
   treeStats_partition c m ok inv
+
+/-- … and at the quiescent end of every interleaving of threads running public calls (get, put
+    of held blocks at their order, drain): every tree frame slot is counted exactly once -/
+theorem conc_quiescent_partition (c : Cfg) (ok : CfgOk c) (H : Nat → Nat) (m : Mem) (inv : UpperInv0 c H m)
+    (n : Nat) (cmds : Nat → List UCmd) (hvalid : ∀ k, ∀ x ∈ cmds k, x.valid c) (sched : List Nat) (hsched : ∀ k ∈ sched, k < n)
+    (hdone : ∀ k, k < n → ∃ held, ((concRun sched (m, fun k => Th.at (runU c (cmds k) ⟨[], []⟩))).2 k).step
+      (concRun sched (m, fun k => Th.at (runU c (cmds k) ⟨[], []⟩))).1 = .done held) :
+    let m' := (concRun sched (m, fun k => Th.at (runU c (cmds k) ⟨[], []⟩))).1
+    Runs m' (treeStats c) (fun s m'' => m' = m'' ∧ classSum s.classes = c.ntrees * c.tf ∧ classFree s.classes = s.freeFrames) :=
+  treeStats_partition c _ ok (upper_conc_quiescent ok H m inv n cmds hvalid sched hsched hdone)
 
 /-- the fold over the slots that `tree_stats` and `validate` use is the list fold over the
     present slots in class order -/
